@@ -138,6 +138,59 @@ def two_root_base(h0: int, target: bytes, start_height: int, start_ts_1: int, st
     return cs, T1, T2
 
 
+class HollowMap:
+    """height -> Block for a trusted base at ANY height, in O(1): every height below h0 that is not overridden maps
+    to one shared never-validated filler.  Offers the part of the immutables.Map interface CoinState uses."""
+
+    def __init__(self, h0, filler, over):
+        self.h0 = h0
+        self.filler = filler
+        self.over = over          # immutables.Map of explicit entries
+
+    def __getitem__(self, h):
+        if h in self.over:
+            return self.over[h]
+        if 0 <= h < self.h0:
+            return self.filler
+        raise KeyError(h)
+
+    def __contains__(self, h):
+        return h in self.over or (isinstance(h, int) and 0 <= h < self.h0)
+
+    def get(self, h, default=None):
+        try:
+            return self[h]
+        except KeyError:
+            return default
+
+    def set(self, h, blk):
+        return HollowMap(self.h0, self.filler, self.over.set(h, blk))
+
+    def __len__(self):
+        return self.h0 + sum(1 for k in self.over.keys() if k >= self.h0)
+
+
+def hollow_base_far(h0: int, target: bytes, n_outputs: int = 12, value_each: int = 5_000_000_000):
+    """Like hollow_base, for heights where a real 1M-entry index would be wasteful (halving boundaries)."""
+    ck = ('far', h0, target, n_outputs, value_each)
+    if ck in _BASE_CACHE:
+        return _BASE_CACHE[ck]
+    filler = _filler_block(BASE_TS - 10_000_000)
+    outs = [Output(value_each + i, key(i % 12).pk) for i in range(n_outputs)]
+    cb = Transaction([Input(OutputReference(ZERO32, 0), CoinbaseData(h0, b'far'))], outs)
+    summ = BlockSummary(h0, ZERO32, consensus.calc_merkle_root_hash([cb]), BASE_TS, target, 0)
+    T = Block(BlockHeader(summ, PowEvidence(b'\x59' * 32, b'\x69' * 32, b'\x79' * 32)), [cb])
+    th = T.hash()
+    cs = CoinState(
+        block_by_hash=immutables.Map({th: T}),
+        unspent_transaction_outs_by_hash=immutables.Map({th: uto_apply_block(immutables.Map(), T)}),
+        block_by_height_by_hash=immutables.Map({th: HollowMap(h0, filler, immutables.Map({h0: T}))}),
+        heads=immutables.Map({th: T}),
+        current_chain_hash=th)
+    _BASE_CACHE[ck] = (cs, T, filler)
+    return _BASE_CACHE[ck]
+
+
 def genesis_base():
     cs = CoinState.zero()
     return cs, cs.head()
